@@ -15,7 +15,12 @@ func genC12(r *Rng, tier string, o *Out) {
 	if tier == "thorough" {
 		n = 60000
 	}
+	nlong := 4 // long runs away from the home offset with reset intervals around and beyond 2^15 and 2^16
+	if tier == "thorough" {
+		nlong = 40
+	}
 	for i := 0; i < n; i++ {
+		long := i < nlong
 		// parameter sets: the two real ones (Abaco 16/4, ROACH 14/2) plus any valid one
 		var fb, drop uint
 		switch r.Intn(4) {
@@ -53,8 +58,17 @@ func genC12(r *Rng, tier string, o *Out) {
 		reset := r.Pick(1, 2, 3, 5, 20, 20000)
 		invert := r.Chance(20)
 		total := r.Range(1, 60)
-		data := make([]dastard.RawType, total)
 		kind := r.Intn(5)
+		if long {
+			enable = true
+			if drop == 0 || fb <= drop+1 {
+				fb, drop = 16, 4
+			}
+			reset = r.Pick(32766, 32767, 32768, 40000, 65535, 65536, 70000)
+			total = reset + r.Range(5, 80)
+			kind = 5
+		}
+		data := make([]dastard.RawType, total)
 		x := r.Intn(65536)
 		twoPiRaw := 1 << fb
 		for j := range data {
@@ -73,6 +87,12 @@ func genC12(r *Rng, tier string, o *Out) {
 				}
 			case 4: // extremes
 				x = r.Pick(0, 65535, 32767, 32768, 1, 65534)
+			case 5: // one wrap away from home early on, then (nearly) flat for longer than the reset interval
+				if j == 3 {
+					x = (x + sign*(twoPiRaw/2+twoPiRaw/8) + 65536*4) % 65536
+				} else if j > 3 && r.Chance(1) {
+					x = (x + r.Range(-1, 1)*(1<<drop) + 65536) % 65536
+				}
 			}
 			data[j] = dastard.RawType(x)
 		}
